@@ -570,9 +570,9 @@ func httpExchange(rt *rapid.T, g *httpRig, idx int, req *httpReq, resp *httpResp
 	fail := func(sig, format string, a ...interface{}) {
 		scope := pairName
 		switch {
-		case strings.HasPrefix(sig, "response-default-content-type-invented"):
-			scope = "down=" + g.down // written by the downstream-side codec
-		case strings.HasPrefix(sig, "request-default-content-type-invented"), strings.HasPrefix(sig, "request-default-user-agent-invented"):
+		case strings.Contains(sig, "-default-content-type-invented") && (g.down == "Http1" || g.up == "Http1"):
+			scope = "fasthttp" // fasthttp's header objects report / write a default Content-Type on either side
+		case strings.HasPrefix(sig, "request-default-user-agent-invented"):
 			scope = "up=" + g.up // written by the upstream-side codec
 		}
 		ev.Fail(rt, partHTTP, "http/"+scope+"/"+sig, "%s: %s", desc, fmt.Sprintf(format, a...))
@@ -674,11 +674,8 @@ func checkHeaders(fail func(string, string, ...interface{}), what string, cross 
 				sig = what + "-default-user-agent-invented"
 			}
 			if kv[0] == "content-type" {
-				if hasBody {
-					sig = what + "-default-content-type-invented"
-				} else {
-					sig = what + "-default-content-type-invented:no-body"
-				}
+				sig = what + "-default-content-type-invented"
+				_ = hasBody
 			}
 			fail(sig, "%s carries %q: %q which the sender never wrote (sent %s, arrived %s)", what, kv[0], kv[1], shortHdr(want), shortHdr(got))
 		}
